@@ -1,5 +1,8 @@
 (* C15 - CNF encodings (verified checker) and exact enumeration of minimal correction subsets. *)
 From InfOCF Require Import Core Form Mcs Clause Cnf ThmCnf ThmRS ThmBlock.
+From InfOCF Require Import PyLib TieOpt.
+From InfOCFGen Require Import SrcOpt.
+From Coq Require Import ZArith.
 
 (* (a) the checker evaluated on every CNF the implementation produces is sound and complete for faithfulness:
    for every complete assignment w of the atoms, the clause set is satisfiable together with w iff w satisfies
@@ -66,6 +69,18 @@ Theorem C15_blocked_is_superset : forall (g:groups) b a, length b = length g ->
   (exists kc, In kc (selected b g) /\ cnfsat a (snd kc) = true) <-> sub b (viol g a) = false.
 Proof. exact blocked_iff_superset. Qed.
 Print Assumptions C15_blocked_is_superset.
+
+
+(* SOURCE TIE.  remove_supersets is GENERATED on every run from /repo's optimizer.py (coq/gen/SrcOpt.v; sorted(key=len) is a
+   stable sort by length).  For every list of sets of keys it returns exactly the inclusion-minimal members: each result is
+   a member, each member has a subset among the results, no result has a member strictly below it. *)
+Theorem C15_source_remove_supersets_is_minimal : forall input : list (list BinNums.Z), (forall x, In x input -> NoDup x) -> exists res,
+  py_remove_supersets 0 input = Return res /\
+  (forall y, In y res -> In y input) /\
+  (forall x, In x input -> exists y, In y res /\ zsubset y x = true) /\
+  (forall y x, In y res -> In x input -> zsubset x y = true -> zsubset y x = true).
+Proof. exact tie_remove_supersets. Qed.
+Print Assumptions C15_source_remove_supersets_is_minimal.
 
 Example faithful_example : check_faithful 3 [0;1] (FAnd (FVar 0) (FVar 1)) [[(true,0)];[(true,1)]] = true
   /\ check_faithful 3 [0;1] (FOr (FVar 0) (FVar 1)) [[(true,0)]] = false
